@@ -21,16 +21,24 @@ TReset == /\ Cur("Reset") /\ E.len = ContentLen
           /\ prim' = [kd \in Kinds |-> [k \in Keys |-> FALSE]] /\ primFail' = FALSE
           /\ rep' = [kd \in Kinds |-> [k \in Keys |-> "absent"]]
           /\ written' = [kd \in Kinds |-> [k \in Keys |-> FALSE]]
+          /\ rd' = [r \in Readers |-> Idle]
           /\ last' = Res("init", "", <<>>, TRUE, <<>>, <<>>, <<>>) /\ hist' = <<>>
 TUpload == \E op \in {"UploadSegment", "UploadIndex"} : Cur(op) /\ Upload(op, E.k) /\ ResMatch /\ StMatch(E.st)
 TDelete == \E op \in {"DeleteSegment", "DeleteIndex"} : Cur(op) /\ Delete(op, E.k) /\ ResMatch /\ StMatch(E.st)
-TDownload == \E op \in {"DownloadSegment", "DownloadIndex"} : Cur(op) /\ Download(op, E.k, E.rng) /\ ResMatch /\ StMatch(E.st)
+TDownload == \E op \in {"DownloadSegment", "DownloadIndex"} : Cur(op) /\ E.mode = "seq" /\ Download(op, E.k, E.rng) /\ ResMatch /\ StMatch(E.st)
+\* overlapping reads: a read that completes at once, one that parks (inside its primary GET, or on another reader's
+\* coalesced GET), the return of a parked primary GET, the completion of a reader that shared that GET
+Same == last'.op = E.ev /\ last'.k = E.k /\ last'.rng = E.rng
+TStartDone == \E op \in {"DownloadSegment", "DownloadIndex"} : Cur(op) /\ E.mode = "start" /\ ReadStart(E.r, op, E.k, E.rng) /\ rd' = rd /\ Same /\ ResMatch /\ StMatch(E.st)
+TPark == Cur("ReadPark") /\ ReadStart(E.r, E.op, E.k, E.rng) /\ rd'[E.r].st = E.parked /\ StMatch(E.st)
+TRet == \E op \in {"DownloadSegment", "DownloadIndex"} : Cur(op) /\ E.mode = "ret" /\ PrimaryGetReturn(E.r) /\ Same /\ ResMatch /\ StMatch(E.st)
+TJoin == \E op \in {"DownloadSegment", "DownloadIndex"} : Cur(op) /\ E.mode = "join" /\ JoinFinish(E.r) /\ Same /\ ResMatch /\ StMatch(E.st)
 TList == Cur("ListSegments") /\ List /\ ResMatch /\ StMatch(E.st)
 TEnsure == Cur("EnsureBucket") /\ Ensure /\ ResMatch /\ StMatch(E.st)
 TSetRep == Cur("SetRep") /\ SetRep(E.kind, E.k, E.s) /\ StMatch(E.st)
 TSetPrimFail == Cur("SetPrimFail") /\ SetPrimFail(E.on) /\ StMatch(E.st)
 Consumed == TLCSet(7, IF TLCGet(7) < l THEN l ELSE TLCGet(7))
-TNext == (TReset \/ TUpload \/ TDelete \/ TDownload \/ TList \/ TEnsure \/ TSetRep \/ TSetPrimFail) /\ Consumed
+TNext == (TReset \/ TUpload \/ TDelete \/ TDownload \/ TStartDone \/ TPark \/ TRet \/ TJoin \/ TList \/ TEnsure \/ TSetRep \/ TSetPrimFail) /\ Consumed
 TSpec == TInit /\ [][TNext]_tvars
 Reached == PrintT(<<"CONF", ToJson([reached |-> TLCGet(7), total |-> Len(TraceLog)])>>)
 ====
